@@ -476,7 +476,7 @@ func (g *G) hdBody(op, delim string, quoted bool) string {
 	var b strings.Builder
 	for i := 0; i < n; i++ {
 		var line string
-		pool := 20
+		pool := 22
 		if g.O.HeredocBodyPool == 1 {
 			pool = 4
 		}
@@ -532,6 +532,13 @@ func (g *G) hdBody(op, delim string, quoted bool) string {
 				line = "$x\t" + delim
 			} else {
 				line = "$x " + delim
+			}
+		case 20, 21:
+			// a line that ends in a backslash: a continuation in an expanding body, literal text in a quoted one;
+			// never the last line (whether backslash-newline can join the delimiter line is not agreed on)
+			line = g.S.Pick([]string{"conti\\", "a $x b\\", "\\"})
+			if i == n-1 {
+				line += "\ntail"
 			}
 		}
 		b.WriteString(line)
